@@ -32,3 +32,29 @@ PROPS["C20"] = {
         {"test": "^(TestNTPMonotone|TestNTPRoundTrip|TestNTP32RoundTrip)$", "checks": 3000000, "shards": 8, "timeout": 900},
     ],
 }
+
+PROPS["C18"] = {
+    "pkg": "c18",
+    "technique": "stateful model-based property testing (rapid state machine) against a pointer-identity reference model, each call under a watchdog",
+    "level_text": "Generated operation histories (10^4 quick / 10^6 thorough) over the exported JitterBuffer, PriorityQueue and the jitter-buffer "
+                  "interceptor are compared step by step with a reference model that tracks the identity of every pushed packet object; "
+                  "exploration, with shrinking to a minimal history.",
+    "level_note": "trusts: the model; effects the statement leaves undefined (head after Clear/PopAtSequence(other)/PopAtTimestamp, start threshold after "
+                  "Clear(true)) are re-synchronised from the implementation instead of asserted; 'never loops' is decided as 'returns within 3 s'",
+    "assumptions": [
+        "single-goroutine use of the buffer (concurrency is C10's subject)",
+        "after Clear(true) either the configured or the default start threshold is accepted",
+    ],
+    "quick": [
+        {"test": "^TestRegress", "timeout": 120},
+        {"test": "^TestJitterBufferModel$", "checks": 6000, "steps": 60, "timeout": 300},
+        {"test": "^TestPriorityQueueModel$", "checks": 6000, "steps": 60, "timeout": 300},
+        {"test": "^TestInterceptorBytes$", "checks": 400, "timeout": 300},
+    ],
+    "thorough": [
+        {"test": "^TestRegress", "timeout": 120},
+        {"test": "^TestJitterBufferModel$", "checks": 80000, "steps": 80, "shards": 8, "timeout": 900},
+        {"test": "^TestPriorityQueueModel$", "checks": 100000, "steps": 80, "shards": 4, "timeout": 900},
+        {"test": "^TestInterceptorBytes$", "checks": 5000, "shards": 4, "timeout": 900},
+    ],
+}
